@@ -29,6 +29,7 @@ func c18(c *Ctx) {
 	c18cs(c)
 	c18sig(c)
 	c18cryption(c)
+	c18padding(c)
 }
 
 func c18jwt(c *Ctx) {
@@ -712,4 +713,71 @@ func c18cryption(c *Ctx) {
 		})
 	}
 	c.R.Min(rule, 3, "LimitCryptionHandler closure, Write, flush")
+}
+
+// c18padding: the block padding written by the encryptor is accepted by the decryptor (writer/reader agreement).
+func c18padding(c *Ctx) {
+	rule := "C18.R7"
+	pkg := "core/codec"
+	if f := c.fn(rule, pkg, "pkcs5Padding"); f != nil {
+		ps := c.paths(rule, f, px.Config{})
+		c.forall(rule, pkg+".pkcs5Padding", "padding length = blockSize − len(data) % blockSize, i.e. between 1 and blockSize inclusive (a whole block when the data is block-aligned), each padding byte holding that length", f, ps, func(p *px.Path) (bool, string) {
+			rp := p.First(calleeIs("bytes.Repeat"))
+			if rp == nil {
+				return false, "padding bytes are not built with bytes.Repeat"
+			}
+			got := anf(p, rp.Call.Args[1], func(s *px.Sym) string {
+				if isParam(s, f.Params[1]) {
+					return "blockSize"
+				}
+				if isLenOf(s, func(x *px.Sym) bool { return isParam(x, f.Params[0]) }) {
+					return "len"
+				}
+				return ""
+			}).String()
+			if got != "-1·(1·len)%(1·blockSize) + 1·blockSize" {
+				return false, "padding length is " + got
+			}
+			return true, ""
+		})
+	}
+	if f := c.fn(rule, pkg, "pkcs5Unpadding"); f != nil {
+		ps := c.paths(rule, f, px.Config{})
+		bsP := f.Params[1]
+		isU := func(s *px.Sym) bool {
+			s = s.Strip(true)
+			return s.Kind == px.KLoad && s.X != nil && s.X.Kind == px.KIndexAddr
+		}
+		isLen := func(s *px.Sym) bool { return isLenOf(s, func(x *px.Sym) bool { return isParam(x, f.Params[0]) }) }
+		var rows []tableRow
+		for ub := -1; ub <= 1; ub++ {
+			for ul := -1; ul <= 1; ul++ {
+				ub, ul := ub, ul
+				exp := "error"
+				if ub <= 0 && ul < 0 {
+					exp = "ok"
+				}
+				rows = append(rows, tableRow{name: fmt.Sprintf("pad%sblockSize pad%slen", map[int]string{-1: "<", 0: "=", 1: ">"}[ub], map[int]string{-1: "<", 0: "=", 1: ">"}[ul]), expect: exp,
+					atom: ordAtom(func(x, y *px.Sym) (int, bool) {
+						if isU(x) && isParam(y, bsP) {
+							return ub, true
+						}
+						if isU(x) && isLen(y) {
+							return ul, true
+						}
+						return 0, false
+					}, nil)})
+			}
+		}
+		c.checkTable(rule, pkg+".pkcs5Unpadding", "a padding length up to and including blockSize (and shorter than the data) is accepted — the encryptor writes a full block of padding for block-aligned plaintext — and anything larger is rejected", posOf(c, f), ps, rows, func(p *px.Path, atom atomFn) string {
+			if p.Exit != px.ExitReturn || len(p.Results) != 2 {
+				return "exit"
+			}
+			if px.IsNilConst(p.Results[1]) {
+				return "ok"
+			}
+			return "error"
+		})
+	}
+	c.R.Min(rule, 2, "pkcs5Padding, pkcs5Unpadding")
 }
